@@ -168,7 +168,9 @@ class RecursiveDescent(object):
             self.error_msg("Expected {}, found {}", typ, self.token.typ)
 
     def error_msg(self, format, *args):
-        msg = format.format(*args)
+        # Callers which pass no arguments have already formatted the message;
+        # it may contain braces from the input.
+        msg = format.format(*args) if args else format
         ptr = " " * self.token.column + "^"
         raise RuntimeError("\n".join(["Parse Error", self.decl, ptr, msg]))
 
